@@ -77,6 +77,14 @@ def with_shape(e, shape):
     return e2
 
 
+def one_past(e):
+    """A subscript legal in every mode but one, where it is exactly one past the end."""
+    sub = [int(e.rng.integers(0, s_)) for s_ in e.shape]
+    m = int(e.rng.integers(0, e.N))
+    sub[m] = int(e.shape[m])
+    return sub, m
+
+
 KINDS4 = ["tensor", "sptensor", "ktensor", "ttensor"]
 KINDS5 = KINDS4 + ["sumtensor"]
 
@@ -416,8 +424,9 @@ def _(e):
 @row("sptensor.extract:subscript-out-of-range")
 def _(e):
     X = e.sptensor()
-    subs = np.array([list(e.shape)])
-    return "sptensor.extract", X.extract, (subs,), {}, X, {}
+    sub, m = one_past(e)
+    subs = np.array([sub]) if e.rng.random() < 0.5 else np.array([[0] * e.N, sub])
+    return "sptensor.extract", X.extract, (subs,), {}, X, {"last_mode": m == e.N - 1}
 
 
 @row("sptensor.extract:negative-subscript")
@@ -606,8 +615,9 @@ def _(e):
 
 @row("sptensor.__init__:subscript-outside-shape")
 def _(e):
-    subs = np.array([list(e.shape)])
-    return "sptensor.__init__", ttb.sptensor, (subs, np.array([[1.0]]), e.shape), {}, None, {}
+    sub, m = one_past(e)
+    subs = np.array([sub])
+    return "sptensor.__init__", ttb.sptensor, (subs, np.array([[1.0]]), e.shape), {}, None, {"last_mode": m == e.N - 1}
 
 
 @row("sptensor.__init__:only-subs")
@@ -617,8 +627,9 @@ def _(e):
 
 @row("sptensor.from_aggregator:subscript-outside-shape")
 def _(e):
-    subs = np.array([list(e.shape), [0] * e.N])
-    return "sptensor.from_aggregator", ttb.sptensor.from_aggregator, (subs, np.array([[1.0], [2.0]]), e.shape), {}, None, {}
+    sub, m = one_past(e)
+    subs = np.array([sub, [0] * e.N])
+    return "sptensor.from_aggregator", ttb.sptensor.from_aggregator, (subs, np.array([[1.0], [2.0]]), e.shape), {}, None, {"last_mode": m == e.N - 1}
 
 
 @row("sptensor.from_aggregator:count-mismatch")
@@ -806,7 +817,8 @@ def _(e):
 @row("tensor.__getitem__:subscript-out-of-range")
 def _(e):
     X = e.tensor()
-    return "tensor.__getitem__", X.__getitem__, (tuple(e.shape),), {}, X, {}
+    sub, m = one_past(e)
+    return "tensor.__getitem__", X.__getitem__, (tuple(sub),), {}, X, {"last_mode": m == e.N - 1}
 
 
 @row("sptensor.__setitem__:value-count-mismatch")
